@@ -22,7 +22,7 @@ CONSTANTS
   ErrBehs = {"raise"}
   InitDescs <- GenInit3
   Descs <- GenDescs3
-  GIdents <- GIdentsQ
+  GIdents <- GIdentsM0
   GActions = {"update", "reply", "changed", "error_update", "error_read", "error_change"}
   GLevels <- GLevelsQ
   EmitOneIn = 4
